@@ -15,6 +15,7 @@ import (
 	"github.com/ipfs/go-cid"
 	ds "github.com/ipfs/go-datastore"
 	dssync "github.com/ipfs/go-datastore/sync"
+	"github.com/libp2p/go-libp2p/core/crypto"
 
 	ipfslog "berty.tech/go-ipfs-log"
 	"berty.tech/go-ipfs-log/enc"
@@ -50,6 +51,20 @@ func initIdentities() {
 	ctx := context.Background()
 	for i := 0; i < MaxWriters; i++ {
 		if err := KeyDS.Put(ctx, ds.NewKey(WriterID(i)), Secret(i)); err != nil {
+			panic(err)
+		}
+		// CreateIdentity looks up a second key under the identity's id (the hex
+		// public key of the first one) and would generate a random one if absent.
+		priv, err := crypto.UnmarshalSecp256k1PrivateKey(Secret(i))
+		if err != nil {
+			panic(err)
+		}
+		pub, err := priv.GetPublic().Raw()
+		if err != nil {
+			panic(err)
+		}
+		h := sha256.Sum256([]byte(fmt.Sprintf("verif-idkey-%d", i)))
+		if err := KeyDS.Put(ctx, ds.NewKey(hex.EncodeToString(pub)), h[:]); err != nil {
 			panic(err)
 		}
 	}
